@@ -3,6 +3,7 @@ package main
 import (
 	"bufio"
 	"bytes"
+	"encoding/binary"
 	"encoding/hex"
 	"encoding/json"
 	"fmt"
@@ -343,13 +344,13 @@ func (r *runner) openOnce(dir string) openResult {
 			ch <- res
 		}()
 		e, err := engine.Open(engineOpts(dir))
+		var m1 runtime.MemStats
+		runtime.ReadMemStats(&m1)
+		res.allocMB = int((m1.TotalAlloc - m0.TotalAlloc) >> 20)
 		if err != nil {
 			res.err = err
 			return
 		}
-		var m1 runtime.MemStats
-		runtime.ReadMemStats(&m1)
-		res.allocMB = int((m1.TotalAlloc - m0.TotalAlloc) >> 20)
 		res.st = observe(e)
 		e.Close()
 	}()
@@ -370,10 +371,26 @@ func writeAOF(dir string, data []byte) error {
 	return os.WriteFile(filepath.Join(dir, "kektordb.aof"), data, 0o644)
 }
 
-// allocation accounting: a single Open reads each frame once and, while resynchronising, each
-// candidate frame once; every read is capped at MaxPayloadSize by the code.  A file of a few
-// frames that makes Open allocate more than a handful of caps has escaped the cap.
-const allocLimitMB = 6 * 1024
+// allocation accounting.  ReadFrame allocates the payload buffer from the length field of whatever
+// header it is pointed at, provided the field is within the cap.  replayAOF points it at every frame
+// position once and resyncAOF at every magic byte at most once more, so the bytes one Open may
+// allocate for a given file are bounded by twice the sum of the in-cap length fields behind the magic
+// bytes of the file (plus what the engine itself needs).  Anything above means a request escaped the cap.
+const allocSlackMB = 192
+
+func allocBoundMB(data []byte) int {
+	var sum uint64
+	for p := 0; p+persistence.HeaderSize <= len(data); p++ {
+		if data[p] != persistence.MagicByte {
+			continue
+		}
+		l := uint64(binary.LittleEndian.Uint32(data[p+2 : p+6]))
+		if l <= persistence.MaxPayloadSize {
+			sum += l
+		}
+	}
+	return int((2*sum)>>20) + allocSlackMB
+}
 
 func subsets(n int) [][]int {
 	var out [][]int
@@ -463,6 +480,12 @@ func (r *runner) runDmg(c *caseRec) {
 			r.res.Degenerate++
 			continue
 		}
+		if c.Out == "REFUSED" && len(f.data) > 0 && f.data[0] == persistence.MagicByte {
+			// the first abstract symbol is not the magic, but its refinement (a byte of a length or checksum
+			// field, e.g. length 165 = 0xA5) happens to be: not a refinement of this abstract case
+			r.res.Degenerate++
+			continue
+		}
 		r.progress(c.ID, f.sub)
 		dir := filepath.Join(base, fmt.Sprintf("d%d", fi))
 		if err := writeAOF(dir, f.data); err != nil {
@@ -491,6 +514,9 @@ func (r *runner) runDmg(c *caseRec) {
 			continue
 		case first.err != nil:
 			r.res.Refused++
+			if bound := allocBoundMB(f.data); first.allocMB > bound {
+				r.diverge(c, "alloc_unbounded", f.sub, fmt.Sprintf("engine.Open allocated %d MB before refusing a %d byte file (bound %d MB)", first.allocMB, len(f.data), bound), nil)
+			}
 			if firstMagic || len(f.data) == 0 {
 				r.diverge(c, "open_refused", f.sub, fmt.Sprintf("the file begins with the frame marker but Open failed: %v", first.err), nil)
 			} else if c.Out != "REFUSED" {
@@ -498,8 +524,8 @@ func (r *runner) runDmg(c *caseRec) {
 			}
 			continue
 		}
-		if first.allocMB > allocLimitMB {
-			r.diverge(c, "alloc_unbounded", f.sub, fmt.Sprintf("engine.Open allocated %d MB on a %d byte file", first.allocMB, len(f.data)), nil)
+		if bound := allocBoundMB(f.data); first.allocMB > bound {
+			r.diverge(c, "alloc_unbounded", f.sub, fmt.Sprintf("engine.Open allocated %d MB on a %d byte file; the length fields within the cap account for at most %d MB", first.allocMB, len(f.data), bound), nil)
 		}
 		if c.Out == "REFUSED" {
 			r.diverge(c, "spec_mismatch", f.sub, "spec: Open refuses; code started", nil)
